@@ -78,6 +78,10 @@ FIXED = [
   "with the plugin's defaults (allowSave) every file-transfer announcement reserved up to 16 MiB for the announced size: a 491-byte input with a handful of announcements requested 71 MiB, a 1 MB file with 10 000 announcements would request 160 GB (allocation failure = abort)", "replays/examples/C03-flst-cumulative-reservation.json"),
  ("KF-C03-17", "C03", "C03-get-log-info-app-count", "fix: get log info response with a corrupt app id count",
   "a GET_LOG_INFO control response with a corrupt application count (65535) made parse_ctrl_log_info_payload reserve a vector for 65535 entries (3.4 MB) for a 30-byte message, on every text rendering of the message: 66 MiB requested for a 416-byte input", "replays/examples/C03-get-log-info-app-count.json"),
+ ("KF-C03-18", "C03", "C03-logcat-unicode-whitespace", "fix: logcat line with a multi-byte whitespace after the timestamp",
+  "a logcat line with a multi-byte Unicode white space (U+00A0, U+2003, ...) directly after the time stamp - the regex \\s accepts it - was sliced one byte behind the time stamp ('byte index is not a char boundary'), monotonic and threadtime format", "replays/examples/C03-logcat-unicode-whitespace.json"),
+ ("KF-C03-19", "C03", "C03-tags-empty-after-trim", "fix: get_apid_for_tag terminates for a second tag that is empty after trim",
+  "two different logcat/generic-log tags that are both empty after trimming ('' and ' ') made get_apid_for_tag propose the apid ' ' in every iteration: endless loop (in builds with overflow checks the u16 iteration counter overflows after 65 535 rounds) while the global tag map is write-locked", "replays/examples/C03-tags-empty-after-trim.json"),
  ("KF-C18-1", "C18", "C18-payload_from_args-empty-string-or-raw", "fix: payload_from_args writes the length",
   "utils::payload_from_args wrote no u16 length prefix for an empty string/raw argument, so the encoded payload did not decode to the same arguments (a single empty raw value: 4 bytes written, 0 arguments decoded)",
   "replays/examples/C18-payload_from_args-empty-raw.json"),
